@@ -7,7 +7,7 @@ CONSTANTS
   AllowDupIP = TRUE
   MaxInbound = 1
   MaxInst = 3
-  MaxIncoming = 1
+  MaxIncoming = 0
   MaxDials = 2
   MaxStops = 1
   MaxTries = 1
